@@ -304,9 +304,14 @@ def intern_leaves(value, m):
     pool = {}
     n = [0]
 
+    def stringlike(v):
+        return hasattr(type(v), '_yv_strlike')
+
     def leaf(v):
-        if type(v) in (datetime.date, datetime.datetime) or isinstance(v, pathlib.PurePath):
-            k = (type(v), v)
+        if type(v) in (datetime.date, datetime.datetime) or isinstance(v, pathlib.PurePath) \
+                or stringlike(v):
+            # a string-like object is written as a scalar: a leaf like a str
+            k = (type(v), str(v)) if stringlike(v) else (type(v), v)
             if k in pool:
                 if pool[k] is not v:
                     n[0] += 1
